@@ -228,6 +228,65 @@ def rule_names_not_truncated(ctx):
     r.floor(5)
 
 
+def rule_md5_write_checked(ctx):
+    """the md5 file is what tells the next run that the file holds uncrustify's own output; if it silently fails to be written,
+    the next run copies that output over the backup of the original"""
+    db = ctx.db
+    r = ctx.rule("md5-write-checked", "backup_create_md5_file(): a failing fopen() of the md5 file cannot return normally, and the result of "
+                 "fclose() of that file is tested with a failing edge that cannot return normally")
+    g = db.fn("backup_create_md5_file", file=BK)
+    opens = [n for n in g.all_nodes() if is_write_open(g, n)]
+    r.require(len(opens) == 1, "backup_create_md5_file: %d write-mode opens" % len(opens))
+
+    ok_open = False
+    ok_close = False
+    for b, blk in g.blocks.items():
+        t = blk.get("term")
+        c = t.get("lc", t.get("c")) if t else None
+        if c is None or len(g.succ[b]) != 2:
+            continue
+        cs = expr_str(g, c)
+        if cs in ("thefile != nullptr", "thefile"):
+            ok_open = ok_open or _no_return_from(g, g.succ[b][1])
+        elif cs in ("thefile == nullptr", "!thefile"):
+            ok_open = ok_open or _no_return_from(g, g.succ[b][0])
+        if "fclose(thefile) != 0" in cs:
+            ok_close = ok_close or _no_return_from(g, g.succ[b][0])
+    r.check(ok_open, "backup_create_md5_file/open-failure-stops", db.loc(g, opens[0]), "when the md5 file cannot be created the function returns as if "
+            "nothing had happened")
+    r.check(ok_close, "backup_create_md5_file/close-failure-stops", db.loc(g, opens[0]), "the result of fclose() on the md5 file is not tested (a "
+            "flush error - disk full - leaves a stale or empty md5 file unnoticed)")
+    r.floor(2)
+
+
+def _no_return_from(g, b):
+    """no `return` / function end reachable from block b without passing exit()"""
+    if b < 0:
+        return False
+    seen = set()
+    stack = [b]
+    while stack:
+        x = stack.pop()
+        if x in seen:
+            continue
+        seen.add(x)
+        if x == g.d.get("exit"):
+            return False
+        cut = False
+        for n in g.blocks[x]["n"]:
+            if is_call(n, "exit"):
+                cut = True
+                break
+            if n["k"] == "ret":
+                return False
+        if cut:
+            continue
+        for s2 in g.succ[x]:
+            if s2 >= 0:
+                stack.append(s2)
+    return True
+
+
 def rule_md5_format_agreement(ctx):
     db = ctx.db
     r = ctx.rule("md5-format-agreement", "writer (backup_create_md5_file) and reader/comparator (backup_copy_file) use the same 32 hex "
@@ -321,4 +380,4 @@ def rule_inplace_name(ctx):
     c13.rule_inplace_name(ctx)
 
 
-RULES = [rule_md5_after_install, rule_skip_guard, rule_names_not_truncated, rule_md5_format_agreement, rule_md5_block_invariant, rule_inplace_name]
+RULES = [rule_md5_after_install, rule_skip_guard, rule_names_not_truncated, rule_md5_write_checked, rule_md5_format_agreement, rule_md5_block_invariant, rule_inplace_name]
